@@ -10,6 +10,7 @@ CONSTANTS
   Greetings = {"PREAUTH"}
   SimDepth = 0
   Count = FALSE
+  MaxDepth = 0
 INIT GenInit
 NEXT GenNext
 VIEW GenView
